@@ -237,6 +237,10 @@ pub fn run(report: &Report, budget: &Budget) {
         let on_terminal = |t: &Terminal, choices: &[usize], scratch: &Scratch| {
             let vs = oracle(&scn, t, scratch);
             report.outcome(format!("{:?}", t.results.iter().map(|r| r.class()).collect::<Vec<_>>()));
+            if t.preemptions >= 2 && choices.len() % 3 == 0 {
+                report.sample(json!({"scenario": scn.name, "explored_schedule": e3::schedule_string(choices, &scn.names), "preemptions": t.preemptions,
+                    "outcome": t.results.iter().map(|r| r.class()).collect::<Vec<_>>(), "complete_bands_all_restore": vs.is_empty()}));
+            }
             if !vs.is_empty() {
                 violating.fetch_add(1, Ordering::SeqCst);
                 let mut mp = min_preempt.lock().unwrap();
